@@ -32,11 +32,11 @@ theorem lagRun_of_bounded (c : Cfg) (s : State) (σ : List Nat)
 
 /-- executable version of `Lag` / `LagRun` (for concrete witnesses) -/
 def lagB (cap : Nat) (s : State) : Pc → Bool
-  | .pushLoadSeq _ pos => decide (s.tail - pos < W32 - cap)
-  | .pushCAS _ pos _ => decide (s.tail - pos < W32 - cap)
-  | .popLoadSeq pos => decide (s.head - pos < W32 - cap)
-  | .popCAS pos _ => decide (s.head - pos < W32 - cap)
-  | .lenLoadHead t => decide (s.tail - t < W32 - cap)
+  | .pushLoadSeq _ pos => decide (s.tail - pos ≤ W32 - cap)
+  | .pushCAS _ pos _ => decide (s.tail - pos ≤ W32 - cap)
+  | .popLoadSeq pos => decide (s.head - pos ≤ W32 - cap)
+  | .popCAS pos _ => decide (s.head - pos ≤ W32 - cap)
+  | .lenLoadHead t => decide (s.tail - t ≤ W32 - cap)
   | .fullLoadHead t => decide (s.tail - t < W32 - cap)
   | .emptyLoadTail h => decide (s.head - h < W32 - cap)
   | _ => true
